@@ -7,6 +7,8 @@ import (
 	"testing/synctest"
 
 	"github.com/lianxiangcloud/linkchain/libs/crypto"
+
+	"verif/sim/kernel"
 )
 
 func rawPub(k recKey) []byte {
@@ -58,6 +60,9 @@ func (r *runState) scenarioAuth() {
 	a.victim = crypto.GenPrivKeyEd25519FromSecret(r.keys.Bytes(32)).PubKey().(crypto.PubKeyEd25519)
 
 	n := r.flt.Range(1, 3)
+	if r.tier == kernel.Thorough {
+		n = r.flt.Range(1, 6)
+	}
 	for i := 0; i < n && !r.stop; i++ {
 		kind := r.flt.Pick(14, 12, 10, 22, 18, 8, 4, 10, 6)
 		if i == 0 && n > 1 && r.flt.Bool(1, 2) {
